@@ -262,6 +262,10 @@ def case(ctx):
             ctx.hist("bound-ood:" + ood)
     except (errors.BzrError, OSError) as e:
         ctx.discard("workload:%s" % type(e).__name__)
+    except AttributeError as e:
+        if "PointlessCommit" not in str(e):  # vf.gen.build_history names breezy.errors.PointlessCommit (lives in breezy.commit)
+            raise
+        ctx.discard("workload:gen-pointless-commit")
     for v in range(VARIANTS[ctx.tier]):
         mode = "roundtrip" if (ctx.index // len(SETUPS) + v) % 3 == 0 else "depth"
         via = rng.choice(["api", "api", "cmd", "cmd-default"])
